@@ -36,33 +36,6 @@ HasErr(obs, cls) == \E i \in 1..Len(obs.errs) : obs.errs[i].cls = cls
 ErrOn(obs, cls, t) == \E i \in 1..Len(obs.errs) : obs.errs[i].cls = cls /\ obs.errs[i].task = t
 NewErrs(prev, obs, cls) == {i \in (Len(prev.errs) + 1)..Len(obs.errs) : obs.errs[i].cls = cls}
 
-(* ---------- the monitor's own evaluation of conditions and values --------------------------- *)
-EvalCond(c, st, res, ctx) ==                         \* "T" | "F" | "E"
-  LET b(x) == IF x THEN "T" ELSE "F" IN
-  CASE c.k = "always"    -> "T"
-    [] c.k = "succeeded" -> b(st = "succeeded")
-    [] c.k = "failed"    -> b(st = "failed")
-    [] c.k = "completed" -> b(st \in Completed)
-    [] c.k = "reseq"     -> b(res = IntV(c.n))
-    [] c.k = "lt"        -> IF c.v \in DOMAIN ctx /\ IsIntV(ctx[c.v]) THEN b(ctx[c.v][2] < c.n) ELSE "E"
-    [] c.k = "ge"        -> IF c.v \in DOMAIN ctx /\ IsIntV(ctx[c.v]) THEN b(ctx[c.v][2] >= c.n) ELSE "E"
-    [] OTHER             -> "E"
-
-EvalVal(e, res, ctx) ==                              \* value, or <<-1>> for an evaluation error
-  CASE e.k = "c"   -> IntV(e.n)
-    [] e.k = "res" -> res
-    [] e.k = "ctx" -> IF e.v \in DOMAIN ctx THEN ctx[e.v] ELSE <<-1>>
-    [] e.k = "inc" -> IF e.v \in DOMAIN ctx /\ IsIntV(ctx[e.v]) THEN IntV(ctx[e.v][2] + 1) ELSE <<-1>>
-    [] OTHER       -> <<-1>>
-
-RECURSIVE PubRoll(_, _, _, _)
-PubRoll(pub, i, res, ctx) ==                         \* rolling publish (models.py finalize_context)
-  IF i > Len(pub) THEN [ok |-> TRUE, ctx |-> ctx, new |-> << >>]
-  ELSE LET v == EvalVal(pub[i][2], res, ctx) IN
-       IF v = <<-1>> THEN [ok |-> FALSE, ctx |-> ctx, new |-> << >>]
-       ELSE LET rest == PubRoll(pub, i + 1, res, (pub[i][1] :> v) @@ ctx)
-            IN [ok |-> rest.ok, ctx |-> rest.ctx, new |-> <<pub[i][1]>> \o rest.new]
-
 (* Decisions the definition prescribes for a completed execution of t with status st, result  *)
 (* res and context ctx: per edge "T"/"F"/"E" and whether its publish renders.                  *)
 Decide(d, t, st, res, ctx) ==
